@@ -339,7 +339,7 @@ Proof.
   - eapply bodies_weaken; [|exact B1]. cbn [Ast.size]. lia.
 Qed.
 
-Lemma step_group x i k a : inl_spec x a -> inl_spec (EGroup x) (NGroup i k a).
+Lemma step_group x i k a : inl_spec x a -> inl_spec (EGroup x) (NGroup BRound i k a).
 Proof.
   intros Hx rj lk cond s ob jb _.
   destruct (Hx rj None false s ob jb (fun _ => eq_refl)) as (c1 & m1 & j1 & p1 & I1 & C1 & L1 & B1).
@@ -390,7 +390,7 @@ Proof.
   - destruct t; try contradiction. intros [-> _]. reflexivity.
   - destruct t; try contradiction. intros [-> _]. reflexivity.
   - destruct k; destruct t; try contradiction; intros [-> _]; reflexivity.
-  - destruct t; try contradiction. intros _. reflexivity.
+  - destruct t as [| | | |b ? ? ?]; try contradiction. destruct b; try contradiction. intros _. reflexivity.
   - destruct t; try contradiction. intros [-> _]. reflexivity.
   - destruct t; try contradiction. intros [-> _]. reflexivity.
 Qed.
